@@ -44,6 +44,8 @@ RULES = {
     "hashes": {"sel": {"Hashes|contains": ["MD5=0123456789abcdef0123456789abcdef", "SHA1=0123456789abcdef0123456789abcdef01234567"], "f1": "v1"}},
     "placeholder": {"sel": {"f1|expand": "%P%", "f2": "v1"}},
     "fieldref-all": {"sel": {"f3|fieldref|all": ["f1", "f2"]}},
+    "all-single": {"sel": {"f2|all": ["v1"], "f3|contains|all": "v1", "f1": "x"}},
+    "all-single-ph": {"sel": {"f1|contains|all|expand": "%P%", "f2|all": ["v1"]}},
 }
 FIELDS = ["f1", "f5"]
 
@@ -145,7 +147,10 @@ class Model:
                 f = F.NOT(b)
             else:
                 f = ("and", (a, F.NOT(b)))
-        for neg, cf in self.extra_conditions:
+        for neg, name in self.extra_conditions:
+            cf = d(name)
+            if cf is None:
+                continue
             c = F.NOT(cf) if neg else cf
             f = c if f is None else ("and", (c, f))
         return f
@@ -277,8 +282,10 @@ def t_add_condition(conds, negated=False, template=False):
         for k, v in conds.items():
             if template and isinstance(v, str):
                 v = v.replace("$category", m.logsource.get("category") or "None").replace("$product", m.logsource.get("product") or "None")
-            fs.append(Item(k, [], v if isinstance(v, list) else [v]).formula())
-        m.extra_conditions.append((negated, F.AND(fs)))
+            fs.append(Item(k, [], v if isinstance(v, list) else [v]))
+        name = f"_added{len(m.extra_conditions)}"
+        m.dets[name] = ["map", fs]  # the added condition is a detection of the rule: later items transform it like any other
+        m.extra_conditions.append((negated, name))
     return apply
 
 
@@ -466,7 +473,7 @@ def scopes_for(kind):
 
 
 # ------------------------------------------------------------------------------------------------ implementation side
-def run_impl(doc, items, vars_=None):
+def run_impl(doc, items, vars_=None, again=False):
     from sigma.processing.pipeline import ProcessingPipeline
     from sigma.rule import SigmaRule
 
@@ -475,6 +482,9 @@ def run_impl(doc, items, vars_=None):
     rule = SigmaRule.from_dict(copy.deepcopy(doc))
     b = V.make_backend_class(K)(pipe)
     qs = b.convert_rule(rule)
+    if again:  # a second, freshly loaded copy of the rule through the same backend and pipeline objects
+        rule = SigmaRule.from_dict(copy.deepcopy(doc))
+        qs = b.convert_rule(rule)
     lp = b.last_processing_pipeline
     ls = {k: v for k, v in rule.logsource.to_dict().items() if k in ("category", "product", "service")}
     return qs, {"fields": list(rule.fields), "logsource": ls, "state": dict(lp.state), "custom": dict(rule.custom_attributes)}
@@ -527,6 +537,12 @@ def judge(res, rname, product, steps, label):
         return
     identity = all(s[4] or s[5][0] == "rule-false" for s in steps)
     res["outcomes"].add(h64(qs))
+    try:
+        again = run_impl(doc, items, again=True)
+    except Exception as e:
+        again = ("raised", type(e).__name__, str(e)[:150])
+    if again != (qs, attrs):
+        add_violation(res, f"second-rule-through-same-pipeline-differs:{label}", case, [qs, attrs], again)
     if identity:
         if base_qs is not None and qs != base_qs:
             m2 = "unexplained"
@@ -608,6 +624,13 @@ def space(tier):
                     yield rn, product, [t + (sc,)]
     if BOUNDS[tier]["chains"]:
         fv = [t for t in cat if t[3] in ("field", "value", "item") and not t[4]]
+        for a in cat:  # an added condition is part of the rule for every later item
+            if a[0].startswith("addcond"):
+                for b in fv:
+                    if b[0].startswith("ph-") or "hashes" in b[0]:
+                        continue
+                    for rn in ("single", "two-dets", "keywords"):
+                        yield rn, "windows", [a + (SCOPES[0],), b + (SCOPES[0],)]
         for a, b in itertools.permutations(fv, 2):
             if a[0].startswith("ph-") or b[0].startswith("ph-") or a[0].startswith("setval") or "hashes" in (a[0], b[0]):
                 continue
